@@ -30,7 +30,7 @@ func init() {
 	})
 }
 
-var presenceCond = regexp.MustCompile(`^!?[A-Za-z_][A-Za-z0-9_.]*(==|!=)var:nil$|^len\([A-Za-z_][A-Za-z0-9_.]*\)(==|!=|>)0$`)
+var presenceCond = regexp.MustCompile(`^!?[A-Za-z_][A-Za-z0-9_.]*(==|!=)var:nil$|^len\([A-Za-z_][A-Za-z0-9_.]*\)((==|!=|>)0|(>=|<)1)$`)
 
 type codecPair struct {
 	Name   string
